@@ -414,6 +414,7 @@ fn model_perms(n: usize, w: usize, cap: usize) -> Result<(BTreeSet<Vec<usize>>, 
     .map_err(|e| e.to_string())?;
     let o = std::process::Command::new("tlc")
         .current_dir(&dir)
+        .env("JAVA_TOOL_OPTIONS", format!("-Djava.io.tmpdir={}", dir))
         .args(["-workers", "2", "-dump", "states", "MergeRound.tla"])
         .output()
         .map_err(|e| format!("machinery: cannot run tlc: {}", e))?;
